@@ -30,7 +30,7 @@ ASSUMPTIONS = [
     "surface' unspecified (the statement quantifies over body outcomes); all other clauses apply",
 ]
 BOUNDS = {
-    "quick": {"max_disposables": 2},
+    "quick": {"max_disposables": 2, "plus": "3 disposables without yielded state"},
     "thorough": {"max_disposables": 3, "plus": "4 disposables with at most 2 non-default behaviours"},
 }
 EXHAUSTIVE = {"quick": True, "thorough": True}
@@ -64,6 +64,13 @@ def programs(tier: str):
                     },
                     "cancels": cancels,
                 }
+    if tier == "quick":
+        # three disposables (multisets), no yielded state, body returns or raises: e.g. two failing
+        # enters + one entered disposable whose roll-back exit fails as well
+        beh3 = [b for b in _behaviours(False) if b["yields"] == "none"]
+        for combo in itertools.combinations_with_replacement(range(len(beh3)), 3):
+            for ending, cancels in bodies:
+                yield {"block": {"kind": "ascope", "supply": [], "disp": [dict(beh3[i]) for i in combo], "pause": bool(cancels), "ending": ending}, "cancels": cancels}
     # states yielded as a non-sequence iterable (generator, dict view)
     for y in ("gen", "values", "falsy"):
         for other in (None, {"enter": "ok", "exit": "ok", "yields": "one"}):
